@@ -47,6 +47,8 @@ def obligations(tier):
         v("Thread::deep_clone_value", "into an unrelated thread everything is copied; within one ancestor chain a pointer is shared only if it lives in the receiver's own heap or an ancestor's", "vm/src/thread.rs::Thread::deep_clone_value"),
         v("RootedValue::re_root", "host moving a handle to another thread/VM: everything is copied unless source and destination are the same thread or ancestor/descendant", "vm/src/thread.rs::RootedValue::re_root"),
         v("RootedValue::vm_push", "a handle pushed into a thread: exactly one value is pushed and it obeys the same share-or-copy rule; on failure the stack is untouched", "vm/src/api/mod.rs::<RootedValue as Pushable>::vm_push"),
+        dict(engine="verus", unit="lazy", function="Lazy::deep_clone", name="C13/lazy/Lazy_deep_clone", source="vm/src/lazy.rs::<Lazy as Userdata>::deep_clone",
+             clause="a lazy value crossing heaps belongs to the receiving thread and what it holds (pending computation or computed result) is a copy made by the receiving cloner; a value being evaluated is refused"),
         v("lemma_ancestor_is_older", "an ancestor thread's generation is strictly smaller (induction over the parent chain)", "lemma over the thread-tree axiom"),
         dict(engine="verus", unit="reference", function="Reference::deep_clone", name="C13/reference/Reference_deep_clone", source="vm/src/reference.rs::<Reference as Userdata>::deep_clone",
              clause="a reference crossing heaps becomes a reference owned by the RECEIVING thread holding a copy of the content"),
